@@ -33,7 +33,7 @@ func runReplayTemplate(repo, verif string, sp ReplaySpec, obligation string) (st
 	os.WriteFile(ovf, data, 0o644)
 	ctx, cancel := context.WithTimeout(context.Background(), 300*time.Second)
 	defer cancel()
-	cmd := exec.CommandContext(ctx, "go", "test", "-mod=mod", "-overlay", ovf, "-vet=off", "-count=1", "-timeout", "240s", "-v", "-run", "^"+sp.Run+"$", sp.Pkg)
+	cmd := exec.CommandContext(ctx, "go", "test", "-mod=mod", "-ldflags=-checklinkname=0", "-overlay", ovf, "-vet=off", "-count=1", "-timeout", "240s", "-v", "-run", "^"+sp.Run+"$", sp.Pkg)
 	cmd.Dir = repo
 	cmd.Env = append(os.Environ(), "GOFLAGS=-mod=mod", "GOPROXY=off", "GOSUMDB=off", "GOTOOLCHAIN=local", "VERIF_OBLIGATION="+obligation)
 	var out bytes.Buffer
